@@ -1,6 +1,6 @@
 (* C01: generated serializers emit exactly the DSDL wire representation.
    Statements only; proofs in Spec/WireThm*.v (specification level) and Codec/Refine.v, Codec/RefineSer*.v (code-shaped walker). *)
-From Verif Require Import Wire WireThm WireThmRt WireThmValid Walker Refine RefineSerBits PrimsOn RefineSerBase RefineSer Gen_C01 GenC01Thm InstancesC InstancesCpp InstancesPy InstancesTyped BulkArrays BulkArraysTie PyWalker PyWalkerThm InstancesPySer.
+From Verif Require Import Wire WireThm WireThmRt WireThmValid Walker Refine RefineSerBits PrimsOn RefineSerBase RefineSer Gen_C01 GenC01Thm InstancesC InstancesCpp InstancesPy InstancesTyped BulkArrays BulkArraysTie TargetPre TargetPreThm PyWalker PyWalkerThm PyWalkerPre InstancesPySer InstancesOpt WalkerX RefineSerX InstancesX WireThmCast CppWalker CppWalkerThm CppWalkerInst.
 Local Open Scope nat_scope.
 
 (* every encoding of every well-formed type lies within the exported bounds; composites are whole bytes *)
@@ -148,6 +148,9 @@ Theorem c01_c_SetIxx_is_walker_store : forall little buf off (z : Z) w, c_dom bu
 Proof. exact c_SetIxx_is_walker_store. Qed.
 Print Assumptions c01_c_SetIxx_is_walker_store.
 
+(* NOTE (audit C01 #10): no C template calls nunavutSetBit - `_serialize_boolean` inlines `buffer[..] |= / &= ~` (serialization.j2
+   183-198); the statement is kept as a fact about the support library's API (used by hand-written code and by the C++ setBit
+   member), not as a link of the generated-code chain. *)
 Theorem c01_c_SetBit_is_walker_store : forall little buf off (b : bool), c_dom buf -> off + 1 <= length buf ->
   c_view (CPrims.set_bit (InstancesBase.bytes_of_bits buf) (CPrims.blen (InstancesBase.bytes_of_bits buf)) (N.of_nat off) b) =
     set_bits (c_prims little) buf off [b].
@@ -211,32 +214,137 @@ Print Assumptions c01_zero_cost_is_std_prim.
 
 (* (c) PYTHON SERIALIZATION (Codec/PyWalker.v: a walker shaped after py/templates/serialization.j2 - append-only Serializer,
        skips instead of zero writes, nested delimited objects in a fork 32 bits on and the header written by the parent afterwards;
-       PyWalkerThm.v, InstancesPySer.v): over the shipped Serializer members it emits the specification's bytes, for every
-       well-formed composite type and EVERY value (no storage proviso: Python integers are unbounded). *)
+       PyWalkerThm.v, PyWalkerPre.v, InstancesPySer.v).  The leaf - what is handed to the Serializer for a primitive field - is the
+       EXPLICIT Python model `TargetPre.py_enc_prim` shared with C03 (max(min()) saturation, two's complement and masking by the
+       support functions, struct.pack with round-half-EVEN float16), NOT the specification's `enc_prim`.  Over the shipped
+       Serializer members the walker emits, for every well-formed composite type and every value, the specification's encoding of
+       the PRE-ADJUSTED value `py_pre t v` (= C03 `target_pre TgPy`; differs from v only on exact float16 ties, finding F-F16-TIE). *)
 Theorem c01_py_walk_ser_refines : forall u fs ext v cap,
   wf_ty (TComp u fs ext) = true -> bmax (TComp u fs ext) <= 8 * cap ->
-  py_walk_ser py_pyprims (TComp u fs ext) v cap = ser_spec (TComp u fs ext) v cap.
+  py_walk_ser py_pyprims py_enc_prim (TComp u fs ext) v cap = ser_spec (TComp u fs ext) (py_pre (TComp u fs ext) v) cap.
 Proof. exact py_walk_ser_refines. Qed.
 Print Assumptions c01_py_walk_ser_refines.
 
+Theorem c01_py_walk_ser_refines_tie_free : forall u fs ext v cap,
+  wf_ty (TComp u fs ext) = true -> bmax (TComp u fs ext) <= 8 * cap -> no_f16_tie (TComp u fs ext) v = true ->
+  py_walk_ser py_pyprims py_enc_prim (TComp u fs ext) v cap = ser_spec (TComp u fs ext) v cap.
+Proof. exact py_walk_ser_refines_tie_free. Qed.
+Print Assumptions c01_py_walk_ser_refines_tie_free.
+
 Theorem c01_py_walk_ser_refines_from_laws : forall Q u fs ext v cap, add_law Q (8 * cap) -> hdr_law Q (8 * cap) ->
   wf_ty (TComp u fs ext) = true -> bmax (TComp u fs ext) <= 8 * cap ->
-  py_walk_ser Q (TComp u fs ext) v cap = ser_spec (TComp u fs ext) v cap.
-Proof. exact py_walk_ser_refines_on. Qed.
+  py_walk_ser Q py_enc_prim (TComp u fs ext) v cap = ser_spec (TComp u fs ext) (py_pre (TComp u fs ext) v) cap.
+Proof. exact py_walk_ser_pre_refines_on. Qed.
 Print Assumptions c01_py_walk_ser_refines_from_laws.
+
+(* the explicit Python leaf is the specification's leaf on the pre-adjusted value (b-c03's Spec/TargetPreThm.v) *)
+Theorem c01_py_leaf_spec : forall p v, py_enc_prim p v = enc_prim p (py_leaf p v).
+Proof. exact py_enc_prim_spec. Qed.
+Print Assumptions c01_py_leaf_spec.
 
 (* add_aligned_u32 of the delimiter header is a plain 4-byte store (proved without the Serializer invariant) *)
 Theorem c01_py_header_store_plain : forall L, L mod 8 = 0 -> hdr_law py_pyprims L.
 Proof. exact py_hdr_plain. Qed.
 Print Assumptions c01_py_header_store_plain.
 
+(* the float16 field holds the exact tie 0x3F801000: the Python walker emits 0x3C00 (15360, round-half-even, what the real code and
+   C03's target_ser TgPy give); the ties-away specification on the unadjusted value would give 0x3C01 *)
 Definition ex_union_r3 : ty :=
   TComp true [TPrim (PU 8 true); TComp false [TPrim (PU 3 true); TPrim (PS 13 true); TPrim (PF 16 true)] (Some 64);
               TVar (TPrim PBool) 9] None.
 Example c01_py_walker_runs :
-  py_walk_ser py_pyprims ex_union_r3 (VUnion 1 (VStruct [VInt 9; VInt (-5000); VFlt 1065357312%N])) 13 =
-  Ok (bits_of_N 8 1 ++ bits_of_N 32 4 ++ bits_of_N 3 7 ++ bits_of_N 13 4096 ++ bits_of_N 16 15361).
+  py_walk_ser py_pyprims py_enc_prim ex_union_r3 (VUnion 1 (VStruct [VInt 9; VInt (-5000); VFlt 1065357312%N])) 13 =
+  Ok (bits_of_N 8 1 ++ bits_of_N 32 4 ++ bits_of_N 3 7 ++ bits_of_N 13 4096 ++ bits_of_N 16 15360).
 Proof. vm_compute. reflexivity. Qed.
+
+(* ROUND 4 (audit follow-up).
+   (B) DE-TOTALISED stores: under the walker's store law the nunavutSetUxx call returns `Some (inl _)` - neither `None` (undefined
+       behaviour in the CPrims model) nor `TooSmall`; and the adapter `c_set_bits` reports success only for `Some (inl _)`. *)
+Theorem c01_c_store_defined : forall little buf off v, c_dom buf -> length v <= 64 -> off + length v <= length buf ->
+  exists r, CPrims.set_uxx little (InstancesBase.bytes_of_bits buf) (CPrims.blen (InstancesBase.bytes_of_bits buf)) (N.of_nat off)
+              (N_of_bits v) (N.of_nat (length v)) = Some (inl r) /\
+            bits_of_bytes r = firstn off buf ++ v ++ skipn (off + length v) buf.
+Proof. exact c_store_defined. Qed.
+Print Assumptions c01_c_store_defined.
+
+Theorem c01_c_set_bits_some_iff : forall little buf off v r,
+  set_bits (c_prims little) buf off v = Some r <->
+  exists r', CPrims.set_uxx little (InstancesBase.bytes_of_bits buf) (CPrims.blen (InstancesBase.bytes_of_bits buf)) (N.of_nat off)
+               (N_of_bits v) (N.of_nat (length v)) = Some (inl r') /\ r = bits_of_bytes r'.
+Proof. exact c_set_bits_some_iff. Qed.
+Print Assumptions c01_c_set_bits_some_iff.
+
+(* (C)+(D) THE FAST PATHS OF THE C TEMPLATES AS PART OF THE ROUTINE (Codec/WalkerX.v, RefineSerX.v, InstancesX.v): `walk_ser_x` takes
+       the little-endian memmove path of `_serialize_integer` (byte-aligned, w > 8: a store of the first 8*ceil(w/8) STORAGE bits,
+       cursor += w - the surplus bits up to the next byte boundary are overwritten by what follows, the invariant `wrote` already
+       allowed that slack for the whole-byte store) and, for every array whose element type satisfies `WalkerSafe.bulk` (bool, or the
+       TRANSLATED `is_zero_cost_primitive`), ONE nunavutCopyBits call over the whole array object instead of the element loop.  It
+       emits the specification's bytes for every well-formed composite type, every value in the storage ranges and every initial
+       buffer; hence it agrees with the plain walker. *)
+Theorem c01_walker_x_refines_from_laws : forall P copy c u fs ext v buf cap, set_law P (8 * cap) -> copy_law copy (8 * cap) ->
+  wf_ty (TComp u fs ext) = true -> length buf = 8 * cap -> storage_ok (TComp u fs ext) v = true ->
+  walk_ser_x P copy c (TComp u fs ext) v buf cap = ser_spec (TComp u fs ext) v cap.
+Proof. exact walk_ser_x_refines_on. Qed.
+Print Assumptions c01_walker_x_refines_from_laws.
+
+Theorem c01_c_walk_ser_x_refines : forall (little : bool) u fs ext v buf cap,
+  wf_ty (TComp u fs ext) = true -> length buf = 8 * cap -> (N.of_nat (8 * cap) < CPrims.two64)%N ->
+  storage_ok (TComp u fs ext) v = true ->
+  walk_ser_x (c_prims little) c_copy (WalkerSafe.std_cfg little) (TComp u fs ext) v buf cap = ser_spec (TComp u fs ext) v cap.
+Proof. exact c_walk_ser_x_refines. Qed.
+Print Assumptions c01_c_walk_ser_x_refines.
+
+Theorem c01_c_walk_ser_x_equals_walk_ser : forall (little : bool) u fs ext v buf cap,
+  wf_ty (TComp u fs ext) = true -> length buf = 8 * cap -> (N.of_nat (8 * cap) < CPrims.two64)%N ->
+  storage_ok (TComp u fs ext) v = true ->
+  walk_ser_x (c_prims little) c_copy (WalkerSafe.std_cfg little) (TComp u fs ext) v buf cap =
+  walk_ser (c_prims little) (TComp u fs ext) v buf cap.
+Proof. exact c_walk_ser_x_equals_walk_ser. Qed.
+Print Assumptions c01_c_walk_ser_x_equals_walk_ser.
+
+(* the audit's witness: truncated uint13 holding 0xFFFF, byte-aligned, little-endian: the memmove path stores 16 ones (bits 13-15
+   are surplus storage bits); in a routine they are overwritten and the result is the specification's; arrays of bool and of uint16 go
+   through one CopyBits call each *)
+Example c01_c_walk_ser_x_example :
+  let t := TComp false [TPrim (PU 13 false); TPrim (PU 3 true); TFix (TPrim PBool) 5; TFix (TPrim (PU 16 true)) 2] None in
+  let v := VStruct [VInt 65535; VInt 2; VArr [VBool true; VBool false; VBool true; VBool true; VBool false]; VArr [VInt 258; VInt 772]] in
+  wx_prim (c_prims true) (WalkerSafe.std_cfg true) (PU 13 false) (VInt 65535) (repeat false 64) 0 = Ok (repeat true 16 ++ repeat false 48, 13) /\
+  walk_ser_x (c_prims true) c_copy (WalkerSafe.std_cfg true) t v (repeat true 64) 8 = ser_spec t v 8 /\
+  WalkerSafe.bulk (WalkerSafe.std_cfg true) (TPrim (PU 16 true)) = Some 16 /\ WalkerSafe.bulk (WalkerSafe.std_cfg true) (TPrim PBool) = Some 1.
+Proof. exact c_walk_ser_x_example. Qed.
+
+(* (E) A C++-SHAPED serialization walker (Codec/CppWalker.v, mirroring lang/cpp/templates/serialization.j2: NO whole-byte fast path -
+       integers always through setUxx/setIxx + add_offset, bool through setBit, void and padding through setZeros /
+       padAndMoveToAlignment, nested composites through `subspan(..)` with the nested routine's own capacity check and a cursor
+       counted from 0, the delimiter header written at the saved cursor afterwards) instead of the C walker run over C++ primitives
+       (audit C01 #4).  The invariant is EXACT (no slack bits), for every initial buffer content. *)
+Theorem c01_cpp_shaped_walk_ser_refines_from_laws : forall Q u fs ext v buf cap,
+  cset_law Q (8 * cap) -> czero_law Q (8 * cap) -> wf_ty (TComp u fs ext) = true -> length buf = 8 * cap ->
+  storage_ok (TComp u fs ext) v = true ->
+  cpp_walk_ser Q (TComp u fs ext) v buf cap = ser_spec (TComp u fs ext) v cap.
+Proof. exact cpp_walk_ser_refines_on. Qed.
+Print Assumptions c01_cpp_shaped_walk_ser_refines_from_laws.
+
+Theorem c01_cpp_shaped_walk_ser_refines : forall u fs ext v buf cap,
+  wf_ty (TComp u fs ext) = true -> length buf = 8 * cap -> (N.of_nat (8 * cap) < CPrims.two64)%N ->
+  storage_ok (TComp u fs ext) v = true ->
+  cpp_walk_ser cppw_prims (TComp u fs ext) v buf cap = ser_spec (TComp u fs ext) v cap.
+Proof. exact cppw_walk_ser_refines. Qed.
+Print Assumptions c01_cpp_shaped_walk_ser_refines.
+
+Theorem c01_cpp_shaped_buffer_effect : forall u fs ext v buf cap bits,
+  wf_ty (TComp u fs ext) = true -> length buf = 8 * cap -> (N.of_nat (8 * cap) < CPrims.two64)%N ->
+  storage_ok (TComp u fs ext) v = true -> bmax (TComp u fs ext) <= 8 * cap -> enc_body (TComp u fs ext) v = Ok bits ->
+  cw_body cppw_prims (TComp u fs ext) v buf 0 (8 * cap) 0 = Ok (bits ++ skipn (length bits) buf, length bits).
+Proof. exact cppw_cw_body_effect. Qed.
+Print Assumptions c01_cpp_shaped_buffer_effect.
+
+(* (F) closed forms of what round-tripping does to a primitive (so that c01_encoding_decodes_to_cast is not circular at the leaves):
+       saturated = clamp, truncated unsigned = mod 2^w, truncated signed = the wrapped representative, floats = pattern / f16
+       pack-unpack, wrong shape = unchanged (Spec/WireThmCast.v `cast_closed`) *)
+Theorem c01_cast_prim_closed_form : forall p v, prim_wf p = true -> cast_prim p v = cast_closed p v.
+Proof. exact cast_prim_closed_form. Qed.
+Print Assumptions c01_cast_prim_closed_form.
 
 (* TRANSLATOR TIE (Generated/Gen_C01.v is rewritten from /repo's Python source on every run; Codec/GenC01Thm.v): the helper
    functions the serialization templates call are what the walker assumes.  filter_bits2bytes_ceil is ceil(n/8) and agrees with
@@ -357,3 +465,48 @@ Print Assumptions c01_c_default_templates_match_walker.
 Theorem c01_c_override_stores_guarded : TplTie.c_ser_guarded = true.
 Proof. exact TplTie.c_override_stores_guarded. Qed.
 Print Assumptions c01_c_override_stores_guarded.
+
+(* ---- DERIVED tie of the C serialization templates (Codec/TplSem.v): the regenerated macro trees, interpreted under every
+   assignment of the static facts and abstracted by the rule table, are the walker's plans - for every node kind ---- *)
+From Verif Require TplSem TplTieDecl.
+Theorem c01_c_ser_templates_are_walker_plans :
+  (forall f, TplSem.sem_c_ser TplSem.m_ser_int (TplSem.rho_int f) = TplSem.plan_ser_int f /\
+             TplSem.sem_c_ser TplSem.m_ser_bool (TplSem.rho_int f) = TplSem.plan_ser_bool f /\
+             TplSem.sem_c_ser TplSem.m_ser_void (TplSem.rho_int f) = TplSem.plan_ser_void f) /\
+  (forall f, TplSem.sem_c_ser TplSem.m_ser_float (TplSem.rho_float f) = TplSem.plan_ser_float f) /\
+  (forall f, flat_map TplSem.bulk_is_loop (TplSem.sem_c_ser TplSem.m_ser_farr (TplSem.rho_arr f)) = TplSem.walker_ser_farr /\
+             flat_map TplSem.bulk_is_loop (TplSem.sem_c_ser TplSem.m_ser_varr (TplSem.rho_arr f)) = TplSem.walker_ser_varr) /\
+  (forall f, TplSem.sem_c_ser TplSem.m_ser_comp (TplSem.rho_comp f) = TplSem.plan_ser_comp f /\
+             TplSem.sem_c_ser TplSem.m_ser_impl (TplSem.rho_loop f) = TplSem.plan_ser_impl f /\
+             TplSem.sem_c_ser TplSem.m_pad (TplSem.rho_comp f) = TplSem.plan_ser_pad).
+Proof. exact TplSem.c_ser_templates_are_walker_plans. Qed.
+Print Assumptions c01_c_ser_templates_are_walker_plans.
+
+(* the integer plan IS Walker.w_prim (not a description of it) *)
+Theorem c01_w_prim_is_plan_uint : forall P w sat z buf off little, w <= 64 ->
+  w_prim P (PU w sat) (VInt z) buf off =
+  TplSem.exec_ser_prim P (TplSem.plan_ser_int (TplSem.facts_int true sat w off little)) w (TplSem.int_image true w z) false buf off off.
+Proof. exact TplSem.w_prim_is_plan_uint. Qed.
+Print Assumptions c01_w_prim_is_plan_uint.
+
+Theorem c01_w_prim_is_plan_sint : forall P w sat z buf off little, w <= 64 ->
+  w_prim P (PS w sat) (VInt z) buf off =
+  TplSem.exec_ser_prim P (TplSem.plan_ser_int (TplSem.facts_int false sat w off little)) w (TplSem.int_image false w z) false buf off off.
+Proof. exact TplSem.w_prim_is_plan_sint. Qed.
+Print Assumptions c01_w_prim_is_plan_sint.
+
+(* every statement of every C codec macro is known to the rule table (nothing is silently ignored) *)
+Theorem c01_c_rules_total : TplSem.every_macro_known = true.
+Proof. exact TplSem.c_rules_total. Qed.
+Print Assumptions c01_c_rules_total.
+
+(* declaration templates (storage types, member shapes): structural tie for the three targets + the C rules derived from the tree *)
+Theorem c01_decl_templates_match_reviewed :
+  Gen_CodecTpl.gen_c_decl_definitions = TplTieData.walker_c_decl_definitions /\
+  Gen_CodecTpl.gen_cpp_decl_composite_type = TplTieData.walker_cpp_decl_composite_type /\
+  Gen_CodecTpl.gen_cpp_decl_fields = TplTieData.walker_cpp_decl_fields /\
+  Gen_CodecTpl.gen_cpp_decl_fields_as_union = TplTieData.walker_cpp_decl_fields_as_union /\
+  Gen_CodecTpl.gen_cpp_decl_fields_as_variant = TplTieData.walker_cpp_decl_fields_as_variant /\
+  Gen_CodecTpl.gen_py_decl_base = TplTieData.walker_py_decl_base.
+Proof. exact TplTieDecl.decl_templates_match_reviewed. Qed.
+Print Assumptions c01_decl_templates_match_reviewed.
